@@ -23,7 +23,11 @@ if os.path.exists(ev):
     bak = ev + '.bak'; shutil.copy(ev, bak)
 try:
     r = sh(f'git -C {wt} apply {os.path.abspath(a.patch)}')
-    if r.returncode: print('PATCH DOES NOT APPLY', r.stderr); sys.exit(2)
+    if r.returncode:
+        r = sh(f'git -C {wt} apply --3way {os.path.abspath(a.patch)}')   # the tree moved on (fix: commits): merge
+        if r.returncode or 'with conflicts' in (r.stdout + r.stderr):
+            print('PATCH DOES NOT APPLY', r.stderr[-400:]); sys.exit(2)
+        print('patch applied with 3-way merge')
     if a.demo:
         d0 = sh(f'PYTHONPATH=/repo /venv/bin/python {a.demo}'); d1 = sh(f'PYTHONPATH={wt} /venv/bin/python {a.demo}')
         print(f'demo: clean exit={d0.returncode} changed exit={d1.returncode}')
